@@ -394,13 +394,20 @@ func (proxy *PgProxy) handleClientPacket(ctx context.Context, packet *PacketHand
 				WithError(err).Errorln("Can't fetch query string from Query packet")
 			return false, err
 		}
+		// If that's some sort of a packet with a query inside it,
+		// process inline data if necessary.
+		censored, err := proxy.handleQueryPacket(ctx, packet, logger)
+		if err != nil || censored {
+			// A query rejected by AcraCensor is not sent to the database, no response will ever
+			// arrive for it, so it must not be remembered as pending.
+			return censored, err
+		}
+		// Remember the query to handle future response.
 		queryPacket := newQueryPacket(query)
 		if err = proxy.protocolState.pendingQueryPackets.Add(queryPacket); err != nil {
 			return false, err
 		}
-		// If that's some sort of a packet with a query inside it,
-		// process inline data if necessary and remember the query to handle future response.
-		return proxy.handleQueryPacket(ctx, packet, logger)
+		return false, nil
 
 	case BindStatementPacket:
 		// Bound query parameters may contain inline data that we need to process.
